@@ -15,7 +15,7 @@ LEAN="${LEAN:-lean}"
 
 expected_theorems="d_nonsquare I_sq F_two_ne_zero d_times edwards_complete eadd_closed
 add_elements_correct double_element_correct nonunified_correct xform_affine_correct
-is_extended_zero_correct xform_extended_correct pt_oncurve enc_injective_core"
+is_extended_zero_correct inv_correct xform_extended_correct pt_oncurve enc_injective_core"
 
 for f in "$here/Header.lean" "$gen" "$here/EdwardsProofs.lean"; do
   [ -f "$f" ] || { echo "build_edwards: missing $f" >&2; exit 2; }
